@@ -175,3 +175,224 @@ def verify_csr_decoder_elaborate():
 
 
 ALL = [verify_csr_decoder_elaborate]
+
+
+# ---- wishbone.Decoder.elaborate ----------------------------------------------------------------------------------------
+WB_FILE = "amaranth_soc/wishbone/bus.py"
+OPT_REQ = ("lock", "cti", "bte")        # optional request signals (forwarded with a default when the decoder lacks them)
+OPT_RSP = ("err", "rty", "stall")       # optional response signals
+
+
+def verify_wb_decoder_elaborate():
+    """C07 (L1 part): the statements issued by the real wishbone.Decoder.elaborate() for ONE ARBITRARY window, for every combination
+    of optional signals on decoder and subordinate (hasattr() is a free boolean per signal; the paths enumerate them):
+      request-forwarded-always       in Switch(bus.adr), outside any Case: sub.adr := bus.adr << log2(ratio), dat_w, sel (replicated by the
+                                     ratio), we, stb copied; lock / cti / bte := the decoder's signal, or the documented default when it has none,
+                                     and only if the subordinate has the signal
+      selected-only-in-the-window    in Case(sub_pat[:bus.addr_width]): sub.cyc := bus.cyc and bus.dat_r := sub.dat_r
+      responses-collected-once       ack is appended to its fan-in exactly once; err / rty / stall exactly once iff the subordinate has them
+      nothing-else-per-window
+      upstream-responses             after the loop: bus.ack := any_of(acks); bus.err / rty / stall := any_of(...) iff the decoder has them
+    any_of (the pairwise OR reduction, a nested function) is replaced by its contract and checked natively on 0..64 terms (bounded)."""
+    fv = FnVerifier("wishbone.bus.Decoder.elaborate", [])
+    fn = find_def(WB_FILE, "Decoder.elaborate")
+    ex = Exec(WB_FILE, "Decoder", axioms=[])
+    log = hdlrec.Log()
+    m, values = hdlrec.module(log)
+    ex.contracts["Module"] = lambda ex_, recv, a, kw, q, node: [(m, q)]
+    names = ("adr", "dat_w", "dat_r", "sel", "cyc", "stb", "we", "ack") + OPT_REQ + OPT_RSP
+    bus = SymObj("Interface", "self.bus"); sub = SymObj("Interface", "sub_bus")
+    for nm in names:
+        bus.init_fields[nm] = hdlrec.signal(values, "bus." + nm)
+        sub.init_fields[nm] = hdlrec.signal(values, "sub." + nm)
+    BAW = z3.Int("bus_addr_width")
+    bus.init_fields["addr_width"] = BAW
+    has = {(o, f): z3.Bool(f"has_{o}_{f}") for o in ("bus", "sub") for f in OPT_REQ + OPT_RSP}
+
+    def which(o):
+        return "bus" if o is bus else ("sub" if o is sub else None)
+
+    def c_hasattr(ex_, recv, a, kw, q, node):
+        o, f = a
+        w = which(o)
+        if w and isinstance(f, Opaque) and f.what.startswith("str:") and (w, f.what[4:]) in has:
+            return [(has[(w, f.what[4:])], q)]
+        raise Unsupported(f"hasattr({o!r}, {f!r})")
+    ex.contracts["hasattr"] = c_hasattr
+
+    def c_getattr(ex_, recv, a, kw, q, node):
+        o, f, default = a
+        w = which(o)
+        if not (w and isinstance(f, Opaque) and f.what.startswith("str:") and (w, f.what[4:]) in has):
+            raise Unsupported(f"getattr({o!r}, {f!r}, default)")
+        name = f.what[4:]
+        yes, no = q, q.fork()
+        yes.assume(has[(w, name)]); no.assume(z3.Not(has[(w, name)]))
+        return [(o.init_fields[name], yes), (values.wrap(Expr("default", values.operand(ex_, default, node))), no)]
+    ex.contracts["getattr"] = c_getattr
+    RATIO = z3.Int("sub_ratio"); LOG = z3.Int("log2_ratio")
+    ex.contracts["exact_log2"] = lambda ex_, recv, a, kw, q, node: [(LOG, q)]
+    ex.contracts["Cat"] = lambda ex_, recv, a, kw, q, node: [(values.wrap(Expr("cat", "each bus.sel bit replicated sub_ratio times")), q)]
+    sub_map = SymObj("MemoryMap", "sub_map")
+
+    class PatModel:
+        def getslice(self, ex_, recv, lo, hi, q, node):
+            return values.wrap(Expr("pattern-prefix", ex_.toint(hi, node) if hi is not None else None))
+    pat = SymObj("str", "sub_pat", model=PatModel())
+
+    class Subs:
+        def getitem(self, ex_, recv, key, q, node):
+            ex_.oblige("subordinate-looked-up-by-its-memory-map", q, z3.BoolVal(key is sub_map), node)
+            return [(sub, q)]
+
+    class MapModel:
+        def call_window_patterns(self, ex_, recv, a, kw, q, node):
+            return [(("window_patterns",), q)]
+    bus.init_fields["memory_map"] = SymObj("MemoryMap", "self.bus.memory_map", model=MapModel())
+    self_ = SymObj("Decoder", "self")
+    self_.init_fields.update({"bus": bus, "_subs": SymObj("dict", "self._subs", model=Subs())})
+    lists = []
+
+    class FanIn:
+        def call_append(self, ex_, recv, a, kw, q, node):
+            key = ("fanin", id(recv))
+            q.ghost[key] = tuple(q.ghost.get(key, ())) + (a[0],)
+            return [(NONE, q)]
+
+    def new_list(q):
+        o = SymObj("list", f"fanin{len(lists)}", model=FanIn()); lists.append(o); return o
+    ex.empty_list_factory = new_list
+
+    def c_any_of(ex_, recv, a, kw, q, node):
+        if not (isinstance(a[0], SymObj) and a[0] in lists):
+            raise Unsupported("any_of() of something that is not one of the fan-in lists")
+        return [(values.wrap(Expr("or-of-all-windows", lists.index(a[0]))), q)]
+    ex.contracts["any_of"] = c_any_of
+    marks = {}
+
+    def loop(ex_, st_node, path):
+        if ast.unparse(st_node.iter) != "self.bus.memory_map.window_patterns()":
+            ex_.unsupported(st_node, "another loop")
+        body = path.fork()
+        body.assume(z3.And(RATIO >= 1, LOG >= 0))
+        marks["start"] = len(log.entries)
+        out = []
+        for kind, _, q2 in ex_.assign(st_node.target, Tup((sub_map, Opaque("sub_name"), Tup((pat, RATIO)))), body, st_node):
+            for kind2, val2, q3 in ex_.block(st_node.body, q2):
+                if kind2 in ("fall", "continue"):
+                    marks.setdefault("ends", []).append((q3, len(log.entries)))
+                else:
+                    out.append((kind2, val2, q3))
+        marks["after"] = len(log.entries)
+        out.append(("fall", None, path))
+        return out
+
+    class _Every(dict):
+        def get(self, key, default=None):
+            return loop
+    ex.loop_invariants = _Every()
+    q = Path()
+    q.env.update({"self": self_, "platform": Opaque("platform")})
+    outs = ex.run(fn, q)
+    fv.paths = len(outs)
+    for k, o in enumerate(outs):
+        fv.add("no-exception", f"path{k}", o.path.pc, z3.BoolVal(o.kind == "return"))
+    g = lambda o, n: o.init_fields[n].expr
+
+    def val(pc, var):
+        for f in pc:
+            if f.eq(var):
+                return True
+            if z3.is_not(f) and f.arg(0).eq(var):
+                return False
+        return None
+    sw = ("Switch", g(bus, "adr"))
+    defaults = {"lock": Expr("const", z3.IntVal(0)), "cti": Expr("opaque", "global:CycleType.CLASSIC"), "bte": Expr("opaque", "global:BurstTypeExt.LINEAR")}
+    n_w = 0
+    for qend, upto in marks.get("ends", []):
+        n_w += 1
+        lab = f"window-path{n_w}"
+        mine = [e for e in log.entries[marks["start"]:upto] if all(any(f.eq(h) for h in qend.pc) for f in e["path"].pc)]
+        exp = [("address-forwarded-shifted-by-log2-ratio", g(sub, "adr"), Expr("op", "LShift", (g(bus, "adr"), Expr("const", LOG))), (sw,)),
+               ("write-data-forwarded", g(sub, "dat_w"), g(bus, "dat_w"), (sw,)),
+               ("select-replicated", g(sub, "sel"), Expr("cat", "each bus.sel bit replicated sub_ratio times"), (sw,)),
+               ("write-enable-forwarded", g(sub, "we"), g(bus, "we"), (sw,)),
+               ("strobe-forwarded", g(sub, "stb"), g(bus, "stb"), (sw,))]
+        # whether the subordinate has an optional signal must have been EXAMINED on every path (a path that never asks cannot
+        # treat the signal correctly both when it is there and when it is not)
+        unexamined = [f for f in OPT_REQ + OPT_RSP if val(qend.pc, has[("sub", f)]) is None]
+        unexamined += ["decoder " + f for f in OPT_REQ if val(qend.pc, has[("sub", f)]) and val(qend.pc, has[("bus", f)]) is None]
+        fv.add("every-optional-signal-examined", lab, qend.pc, z3.BoolVal(not unexamined))
+        for f in OPT_REQ:
+            if val(qend.pc, has[("sub", f)]):
+                hb = val(qend.pc, has[("bus", f)])
+                exp.append((f"{f}-forwarded-or-default", g(sub, f), g(bus, f) if hb else Expr("default", defaults[f]), (sw,)))
+        case = ("Case", (Expr("pattern-prefix", BAW),))
+        exp += [("cycle-only-in-the-window", g(sub, "cyc"), g(bus, "cyc"), (sw, case)),
+                ("read-data-from-the-selected-window", g(bus, "dat_r"), g(sub, "dat_r"), (sw, case))]
+        ok_len = len(mine) == len(exp) and all(e["kind"] == "assign" and e["domain"] == "comb" for e in mine)
+        fv.add("nothing-else-per-window", lab, qend.pc, z3.BoolVal(ok_len))
+        if ok_len:
+            for (nm, dst, srcx, ctx), e in zip(exp, mine):
+                fv.add(nm, lab, qend.pc, z3.And(z3.BoolVal(len(e["ctx"]) == len(ctx)), same_expr(e["dst"], dst), same_expr(e["src"], srcx),
+                                                *[z3.And(z3.BoolVal(c1[0] == c2[0]), same_expr(c1[1], c2[1])) for c1, c2 in zip(e["ctx"], ctx)]))
+        # fan-in lists in creation order: ack, err, rty, stall
+        got = [qend.ghost.get(("fanin", id(l)), ()) for l in lists]
+        want = [(sub.init_fields["ack"],)] + [((sub.init_fields[f],) if val(qend.pc, has[("sub", f)]) else ()) for f in OPT_RSP]
+        fv.add("responses-collected-once", lab, qend.pc,
+               z3.BoolVal(len(got) == 4 and all(len(a) == len(b) and all(x is y for x, y in zip(a, b)) for a, b in zip(got, want))))
+    # after the loop
+    tails = {}
+    for e in log.entries[marks.get("after", 0):]:
+        tails.setdefault(tuple(sorted(str(f) for f in e["path"].pc)), []).append(e)
+    final = [o for o in outs if o.kind == "return"]
+    for k, o in enumerate(final):
+        mine = [e for e in log.entries[marks.get("after", 0):] if all(any(f.eq(h) for h in o.path.pc) for f in e["path"].pc)]
+        exp = [(g(bus, "ack"), Expr("or-of-all-windows", 0))]
+        fv.add("every-optional-response-of-the-decoder-examined", f"after-the-loop{k}", o.path.pc,
+               z3.BoolVal(all(val(o.path.pc, has[("bus", f)]) is not None for f in OPT_RSP)))
+        for idx, f in enumerate(OPT_RSP, start=1):
+            if val(o.path.pc, has[("bus", f)]):
+                exp.append((g(bus, f), Expr("or-of-all-windows", idx)))
+        ok = len(mine) == len(exp) and all(e["domain"] == "comb" and not e["ctx"] for e in mine)
+        fv.add("upstream-responses", f"after-the-loop{k}", o.path.pc,
+               z3.And(z3.BoolVal(ok), *([z3.And(same_expr(e["dst"], d), same_expr(e["src"], s_)) for e, (d, s_) in zip(mine, exp)] if ok else [])))
+    fv.add("cover:windows-and-tails", "vacuity", [], z3.BoolVal(n_w >= 8 and len(final) >= 8))
+    # the reduction: the nested function any_of
+    inner = [n for n in ast.walk(fn) if isinstance(n, ast.FunctionDef) and n.name == "any_of"]
+    if len(inner) == 1:
+        ok, detail = reduction_bounded_fn(inner[0])
+    else:
+        ok, detail = False, f"{len(inner)} nested functions named any_of"
+    fv.add("reduction-is-the-or-of-all[<=64, bounded]", "native", [], z3.BoolVal(ok))
+    fv.reduction_detail = detail
+    fv.add_engine_obligations(ex)
+    return fv
+
+
+def reduction_bounded_fn(fdef, max_len=64):
+    """any_of(terms) extracted from the source and run natively on 0..max_len one-bit z3 terms: result == OR of all (0 for none)"""
+    src = ast.unparse(fdef)
+    ns = {}
+    exec(compile(src, "<any_of extracted from wishbone.Decoder.elaborate>", "exec"), ns)
+    f = ns[fdef.name]
+    for n in range(0, max_len + 1):
+        leaves = [z3.BitVec(f"t{i}", 1) for i in range(n)]
+        try:
+            out = f(list(leaves))
+        except Exception as e:
+            return False, f"length {n}: {type(e).__name__}: {e}"
+        if n == 0:
+            if not (isinstance(out, int) and out == 0):
+                return False, "no terms: result is not 0"
+            continue
+        want = leaves[0]
+        for x in leaves[1:]:
+            want = want | x
+        s = z3.Solver(); s.add(out != want)
+        if s.check() != z3.unsat:
+            return False, f"length {n}: the result is not the OR of all terms"
+    return True, f"lengths 0..{max_len}"
+
+
+ALL = [verify_csr_decoder_elaborate, verify_wb_decoder_elaborate]
